@@ -143,6 +143,28 @@ fn compare_object(bij: &mut Bij, state: &State, m: &Machine, shadow_idx: usize) 
     }
 }
 
+/// elements `from..to` (clipped) and the length of a large array
+fn compare_cells(bij: &mut Bij, state: &State, m: &Machine, shadow_idx: usize, from: usize, to: usize) -> Option<String> {
+    let real_idx = match bij.s2r.get(&shadow_idx) {
+        Some(r) => *r,
+        None => return None,
+    };
+    match (state.heap.dereference(&HeapIndex::from(real_idx)), &m.heap[shadow_idx]) {
+        (Ok(HeapObject::Array(a)), HObj::Array(es)) => {
+            if a.length() != es.len() {
+                return Some(format!("array {}: real length {} vs reference {}", shadow_idx, a.length(), es.len()));
+            }
+            for (i, (rp, sv)) in a.iter().zip(es.iter()).enumerate().skip(from).take(to.saturating_sub(from)) {
+                if !bij.same(rp, sv) {
+                    return Some(format!("array {} element {}: real {:?} vs reference {:?}", shadow_idx, i, rp, sv));
+                }
+            }
+            None
+        }
+        _ => compare_object(bij, state, m, shadow_idx),
+    }
+}
+
 fn compare_globals(bij: &mut Bij, state: &State, m: &Machine) -> Option<String> {
     for (name, sv) in &m.globals {
         match state.frame_stack.globals.get(name) {
@@ -206,6 +228,11 @@ pub fn run(real: &Program, prog: &Prog, cap: u64) -> LockResult {
     };
     let mut out = String::new();
     let mut bij = Bij { r2s: HashMap::new(), s2r: HashMap::new() };
+    // output only grows: each step compares the lengths and the part added since the last step
+    // (the whole text once more at the end); full heap sweeps are spaced so that their cost stays
+    // proportional to the number of steps even with 10^5 live objects
+    let mut out_seen = 0usize;
+    let mut next_sweep = 128u64;
     loop {
         // --- compare instruction pointers before executing
         let real_ip = state.instruction_pointer.get().map(|a| a.value_usize());
@@ -284,10 +311,11 @@ pub fn run(real: &Program, prog: &Prog, cap: u64) -> LockResult {
             _ => {}
         }
         // --- compare state after the instruction
-        if out != m.out {
+        if out.len() != m.out.len() || out.as_bytes()[out_seen.min(out.len())..] != m.out.as_bytes()[out_seen.min(out.len())..] {
             res.divergence = Some(format!("#{}+{} {:?}: output differs: real {:?} vs reference {:?}", mi, off, ins, tail(&out), tail(&m.out)));
             break;
         }
+        out_seen = out.len();
         let rs = stack_of(&state);
         if rs.len() != m.stack.len() {
             res.divergence = Some(format!("#{}+{} {:?}: operand stack depth real {} vs reference {}", mi, off, ins, rs.len(), m.stack.len()));
@@ -352,7 +380,10 @@ pub fn run(real: &Program, prog: &Prog, cap: u64) -> LockResult {
             break;
         }
         // globals and heap: touched parts now, full sweep periodically
-        let sweep = res.steps % 128 == 0;
+        let sweep = res.steps >= next_sweep;
+        if sweep {
+            next_sweep = res.steps + 128u64.max((m.heap.len() as u64 + m.heap_cells) / 2);
+        }
         match ins {
             Ins::SetGlobal(_) => {
                 bad = compare_globals(&mut bij, &state, &m);
@@ -367,7 +398,10 @@ pub fn run(real: &Program, prog: &Prog, cap: u64) -> LockResult {
                 }
                 if bad.is_none() {
                     if let Some(t) = m.touched {
-                        bad = compare_object(&mut bij, &state, &m, t);
+                        bad = match (&m.heap[t], m.touched_cell) {
+                            (HObj::Array(es), Some(c)) if es.len() > 256 => compare_cells(&mut bij, &state, &m, t, c.saturating_sub(1), c + 2),
+                            _ => compare_object(&mut bij, &state, &m, t),
+                        };
                     }
                 }
             }
@@ -391,6 +425,9 @@ pub fn run(real: &Program, prog: &Prog, cap: u64) -> LockResult {
     }
     // final sweep
     // (after a failure the state is no longer observable: FML may leave a half-done update)
+    if res.divergence.is_none() && matches!(m.status, Status::Halted) && out != m.out {
+        res.divergence = Some(format!("output differs at the end: real {:?} vs reference {:?}", tail(&out), tail(&m.out)));
+    }
     if res.divergence.is_none() && matches!(m.status, Status::Halted) {
         let mut bad = compare_globals(&mut bij, &state, &m);
         if bad.is_none() {
